@@ -33,6 +33,32 @@ type delayStore struct {
 	inner persistence.LogStatePersistence
 	n     atomic.Uint64
 	seed  uint64
+	// rendezvous: instead of a random delay, writers meet in pairs right before Set and enter it at the
+	// same instant on different CPUs (spin barrier): interleavings INSIDE one storage operation, which yield
+	// points between operations cannot produce.
+	rendezvous bool
+	waiting    atomic.Int64
+	gen        atomic.Uint64
+	met        atomic.Int64
+}
+
+func (d *delayStore) meet() {
+	g := d.gen.Load()
+	if d.waiting.Add(1) >= 2 {
+		d.waiting.Store(0)
+		d.met.Add(1)
+		d.gen.Add(1)
+		return
+	}
+	deadline := time.Now().Add(2 * time.Millisecond)
+	for i := 0; d.gen.Load() == g; i++ {
+		if i%256 == 255 && time.Now().After(deadline) {
+			if d.gen.CompareAndSwap(g, g+1) {
+				d.waiting.Store(0)
+			}
+			return
+		}
+	}
 }
 
 func (d *delayStore) jitter() {
@@ -79,8 +105,15 @@ type dw struct {
 }
 
 func (w dw) GetLatest() ([]byte, error) { w.d.jitter(); return w.w.GetLatest() }
-func (w dw) Set(c []byte) error         { w.d.jitter(); return w.w.Set(c) }
-func (w dw) Close() error               { w.d.jitter(); return w.w.Close() }
+func (w dw) Set(c []byte) error {
+	if w.d.rendezvous {
+		w.d.meet()
+	} else {
+		w.d.jitter()
+	}
+	return w.w.Set(c)
+}
+func (w dw) Close() error { w.d.jitter(); return w.w.Close() }
 
 type rec struct {
 	in        lin.In
@@ -114,6 +147,7 @@ func main() {
 	outcomes := map[string]int{}
 	var illegal []map[string]any
 	unknown, totalOps := 0, 0
+	pairsMet := int64(0)
 	for h := 0; h < nh; h++ {
 		r := rand.New(rand.NewPCG(seed*1000+uint64(round), uint64(h)))
 		u := gen.NewUniverse(r, gen.Opts{NLogs: 3, MaxSize: 40, Branches: 2, Unique: true})
@@ -123,7 +157,7 @@ func main() {
 			panic(err)
 		}
 		keys, _ := wit.NewWitKeys(r, []bool{false}, false)
-		ds := &delayStore{seed: r.Uint64()}
+		ds := &delayStore{seed: r.Uint64(), rendezvous: h%3 == 2}
 		rn, err := wit.NewRunner(u, keys, st, func(p persistence.LogStatePersistence) persistence.LogStatePersistence { ds.inner = p; return ds })
 		if err != nil {
 			panic(err)
@@ -227,6 +261,7 @@ func main() {
 			outcomes[rc.out.Kind]++
 		}
 		totalOps += len(ops)
+		pairsMet += ds.met.Load()
 		lin.MarkOverlaps(ops)
 		switch lin.Check(lin.Model(map[string]lin.State{}), ops, 60*time.Second) {
 		case "illegal":
@@ -241,6 +276,7 @@ func main() {
 		st.Close()
 	}
 	res["Histories"], res["Operations"], res["Illegal"], res["Unknown"], res["Outcomes"] = nh, totalOps, illegal, unknown, outcomes
+	res["PairsMet"] = pairsMet
 	b, _ := json.Marshal(res)
 	_ = os.WriteFile(os.Getenv("VERIF_STRESS_OUT"), b, 0o644)
 }
